@@ -248,7 +248,7 @@ func newQconn(c net.Conn) *qconn {
 			if failed {
 				continue
 			}
-			c.SetWriteDeadline(time.Now().Add(1500 * time.Millisecond))
+			c.SetWriteDeadline(time.Now().Add(4 * time.Second))
 			if _, err := c.Write(b); err != nil {
 				failed = true
 			}
